@@ -1095,9 +1095,7 @@ func (h *c15Harness) crashEnumeration() {
 		{c15Ld(), c15Upd(2, 7, 3, 5), c15Ins(3, 8, 4)},
 		{c15Ld(), c15Ins(3, 7, 0)},
 	}
-	if !vThorough() {
-		// the quick tier runs every crash point with a rotating subset of the recoveries
-	}
+	// the quick tier runs every crash point with the plain load recovery and a rotating third of the others
 	exhaustive := true
 	n := 0
 	for pi, pre := range pres {
@@ -1179,7 +1177,7 @@ func (h *c15Harness) races() {
 		{"del-ins-same", pre1, []c15Op{c15Del(1), c15Ins(1, 4, 3)}},
 		{"del-del", pre1, []c15Op{c15Del(1), c15Del(1)}},
 	}
-	L := vBudget(6, 9)
+	L := vBudget(5, 9)
 	n := 0
 	for _, p := range pairs {
 		for bits := 0; bits < 1<<L; bits++ {
@@ -1203,7 +1201,7 @@ func (h *c15Harness) races() {
 
 // ---------- random schedules ----------
 func (h *c15Harness) random(r *vRand) {
-	N := vBudget(250, 2500)
+	N := vBudget(150, 2500)
 	for it := 0; it < N; it++ {
 		nOps := 3 + r.Intn(4)
 		ops := []c15Op{}
